@@ -142,6 +142,7 @@ def run(tier):
             "InodeNumberOutOfRange": ("Inode", lambda e: e.update(num=10 ** 6)),
             "EntryPointsNowhere": ("DirEnt", lambda e: e.update(resolves=False)),
             "IdIndexOutOfRange": ("Inode", lambda e: e.update(uid_idx=65000)),
+            "IndexNamesWrongBlock": ("DirIndex", lambda e: e.update(block_matches=False)),
             "NotPadded": ("Super", lambda e: e.update(file_len_mod4k=123)),
             "TablesOutOfOrder": ("Super", lambda e: e.update(table_order=list(reversed(e["table_order"])))),
             "BasicInodeForLargeFile": ("Inode", lambda e: e.update(needs_ext=True, ext=False) if e["type"] == "file" else e.update(num=0))}
@@ -162,6 +163,9 @@ def run(tier):
         ev.write()
         return 2
     nev = sum(len(e) for _, e in items)
+    ev.set("images_with_index_entry_for_a_header_continuing_in_the_next_metadata_block",
+           sum(1 for _, evs in items if any(e["e"] == "DirIndex" and e["header_straddles"] for e in evs)))
+    ev.set("directory_index_entries_validated", sum(1 for _, evs in items for e in evs if e["e"] == "DirIndex"))
     ev.set("evaluations", len(items))
     ev.set("distinct_nontrivial", len({l for l, _ in items}))
     ev.set("events_validated", nev)
